@@ -774,6 +774,7 @@ func (f *Frame) instr(st *State, r *Term, in ssa.Instruction) {
 			bs = append(bs, f.get(b))
 		}
 		f.vals[x] = ClosureVal{Fn: x.Fn.(*ssa.Function), Bindings: bs}
+		f.bindingChecks(st, r, x, bs)
 	case *ssa.Slice:
 		f.vals[x] = f.sliceOp(st, r, x)
 	case *ssa.Lookup:
@@ -1348,5 +1349,46 @@ func (f *Frame) runDefers(st *State, r *Term, at *ssa.BasicBlock) {
 			continue
 		}
 		f.call(st, r, d, &d.Call)
+	}
+}
+
+// bindingChecks: `binds` clauses of a method with a value receiver are checked where a method value
+// (r.method) is created: the receiver is copied into the closure at that point, so what holds of it then
+// holds whenever the closure is called (non-nil maps stay non-nil). Calls through the function value are
+// not checked again; the method itself assumes the clause.
+func (f *Frame) bindingChecks(st *State, r *Term, mc *ssa.MakeClosure, bs []Val) {
+	cf, ok := mc.Fn.(*ssa.Function)
+	if !ok || cf.Synthetic == "" || len(bs) != 1 || !strings.HasSuffix(cf.Name(), "$bound") {
+		return
+	}
+	m, ok := cf.Object().(*types.Func)
+	if !ok {
+		return
+	}
+	target := f.ctx.eng.prog.FuncValue(m)
+	if target == nil {
+		return
+	}
+	ct := f.ctx.eng.contractFor(target)
+	if ct == nil {
+		return
+	}
+	for i, rq := range ct.Requires {
+		if !rq.Binding {
+			continue
+		}
+		if _, isPtr := target.Signature.Recv().Type().Underlying().(*types.Pointer); isPtr {
+			sfail("binds clause on %s: only methods with a value receiver can be bound (a pointer receiver may change afterwards)", ct.Key)
+		}
+		tf := &Frame{ctx: f.ctx, fn: target, tmap: TMap{}, vals: map[ssa.Value]Val{target.Params[0]: bs[0]}, parent: f, depth: f.depth + 1, ghosts: map[string]SVal{}, curKey: map[*ssa.Range]*Term{}}
+		tf.entry = st
+		se := tf.specEnv(st, st)
+		se.positive = false
+		t := se.evalBool(rq.Expr)
+		label := rq.Label
+		if label == "" {
+			label = fmt.Sprint(i)
+		}
+		f.check("pre", "->bind:"+shortKey(ct.Key)+":"+label, r, t, mc.Pos())
 	}
 }
